@@ -126,17 +126,18 @@ Section BufWriter.
   (* with the document state (Model/SaveState.v): the mutation happens when save_internal REACHES
      the mutation point, i.e. when every call before it returned Ok -- which with a BufWriter in
      between says nothing about what the file holds at that moment *)
-  Definition save_path_with (mode : xmode) (ids : list N) (pre post : list bytes) (st : sstate)
+  Definition save_path_with (mode : xmode) (ids : list N) (top : option N) (pre post : list bytes) (st : sstate)
              (create : option ekind) (s : script) : wres * bytes * sstate :=
     match create with
-    | Some e => (WErr e, [], st)
+    | Some e => (WErr e, [], st)                     (* save_internal is not entered: no raise of max_id either *)
     | None =>
+      let st0 := raise_max_id top st in
       let '(r1, d1, c1) := run_cwb pre {| cwb_inner := {| bw_buf := []; bw_inner := s |}; cwb_count := 0 |} in
       match r1 with
-      | WErr e => let '(r, f, _) := finish_path (WErr e) d1 (cwb_inner c1) in (r, f, st)
+      | WErr e => let '(r, f, _) := finish_path (WErr e) d1 (cwb_inner c1) in (r, f, st0)
       | WOk =>
         let '(r2, d2, c2) := run_cwb post c1 in
-        let '(r, f, _) := finish_path r2 (d1 ++ d2) (cwb_inner c2) in (r, f, mutate mode ids st)
+        let '(r, f, _) := finish_path r2 (d1 ++ d2) (cwb_inner c2) in (r, f, mutate mode ids st0)
       end
     end.
 End BufWriter.
